@@ -546,10 +546,14 @@ def check_agree(I, sc):
 
 def _shapes_c04_5(tier):
     out = []
-    for sc in ("tls13-psk", "tls13-cert", "tls13-cert-client", "tls13-hrr",
-               "tls12-ecdhe-gcm", "tls12-rsa-cbc", "tls10-dhe-cbc"):
+    scens = ["tls13-psk", "tls13-cert", "tls13-cert-client", "tls13-hrr",
+             "tls12-ecdhe-gcm", "tls12-rsa-cbc", "tls10-dhe-cbc"]
+    if tier != "quick":
+        scens.append("tls12-ecdhe-client")
+    for sc in scens:
         for d in ("c", "s"):
-            for k in range(0, 9 if sc == "tls13-hrr" else 7):
+            for k in range(0, (9 if sc == "tls13-hrr" else 7)
+                           if tier == "quick" else 12):
                 for act in ("drop", "dup", "swap"):
                     out.append(dict(scenario=sc, dir=d, k=k, action=act))
     return out
